@@ -117,9 +117,25 @@ LoopBody ==
    w |-> <<<<"PATH", TEither(T8, T32)>>>>,
    pts |-> {("PATH" :> VLeft(U8(3))), ("PATH" :> VLeft(U8(15))), ("PATH" :> VLeft(U8(40))), ("PATH" :> VRight(U32(100))), ("PATH" :> VRight(U32(101)))}]
 
-PrFamilies == {[b |-> i] : i \in 1..Len(Bodies)} \cup {[b |-> 0], [b |-> -1]}
+\* a nested Either whose inner Right payload is never read: the witness node is as WIDE as the declared type but laid out
+\* differently; the value must be trimmed, or the pruned program fails under its own environment
+TNE == TEither(TEither(T8, T16), T32)
+NestBody ==
+  [ss |-> <<SExpr(EMatch(EWit("NE"),
+                         <<Arm(MLeft("inner", TEither(T8, T16)),
+                               EMatch(V("inner"), <<Arm(MLeft("x", T8), AssertE(JetE("eq_8", <<V("x"), Dec(5)>>))),
+                                                    Arm(MRight("y", T16), EUnit)>>)),
+                           Arm(MRight("z", T32), Blk(<<Chk("check_lock_height", V("z"))>>))>>))>>,
+   w |-> <<<<"NE", TNE>>>>,
+   pts |-> {("NE" :> VLeft(VRight(U16(5)))), ("NE" :> VLeft(VRight(U16(256)))), ("NE" :> VLeft(VLeft(U8(5)))),
+            ("NE" :> VLeft(VLeft(U8(6)))), ("NE" :> VRight(U32(100))), ("NE" :> VRight(U32(101)))}]
+
+PrFamilies == {[b |-> i] : i \in 1..Len(Bodies)} \cup {[b |-> 0], [b |-> -1], [b |-> -2]}
 PrProgramsOf(f) ==
-  IF f.b = -1
+  IF f.b = -2
+  THEN {[items |-> <<Main(Blk(NestBody.ss))>>, wdecls |-> NestBody.w, args |-> EmptyFn, space |-> SetToSeq(NestBody.pts),
+         envs |-> Envs, prune |-> TRUE, tag |-> "prune"]}
+  ELSE IF f.b = -1
   THEN {[items |-> LoopDefs \o <<Main(Blk(LoopBody.ss))>>, wdecls |-> LoopBody.w, args |-> EmptyFn, space |-> SetToSeq(LoopBody.pts),
          envs |-> Envs, prune |-> TRUE, tag |-> "prune"]}
   ELSE IF f.b = 0
